@@ -31,8 +31,11 @@ func VerifC12NameRace() {
 	}
 	var e2 error
 	done2 := false
+	// the second registration may carry another secret key or the very same one (one configuration
+	// started twice)
+	sk2 := []string{"k2", "k1"}[zzverif.Choice("secondSecretKey", 2)]
 	go func() {
-		_, e2 = c2.RegisterProxy(&msg.NewProxy{ProxyName: "p", ProxyType: typ, RemotePort: 1001, Sk: "k2"})
+		_, e2 = c2.RegisterProxy(&msg.NewProxy{ProxyName: "p", ProxyType: typ, RemotePort: 1001, Sk: sk2})
 		done2 = true
 	}()
 	_, e1 := c1.RegisterProxy(&msg.NewProxy{ProxyName: "p", ProxyType: typ, RemotePort: 1000, Sk: "k1"})
